@@ -18,7 +18,8 @@ ENC = ["asynq/decorators.py: PureAsyncDecorator, AsyncDecorator, AsyncDecoratorB
 KINDS = ["asynq-plain", "asynq-generator", "asynq-batch", "asynq-pure", "async_proxy", "sync_fn-pair",
          "make_async_decorator", "deduplicate", "aretry", "alru_cache", "acached_per_instance",
          "pure-generator", "proxy-pair", "deduplicate-generator"]
-BINDINGS = ["function", "instance", "class", "subclass-instance", "classmethod", "staticmethod"]
+BINDINGS = ["function", "instance", "class", "subclass-instance", "classmethod", "staticmethod",
+            "falsy instance (defines __len__ -> 0)"]
 
 
 class _B(asynq.BatchBase):
@@ -96,7 +97,7 @@ def build(kind, binding):
                     return (who, None, a, y, z)
         return body
 
-    has_recv = binding in (1, 2, 3, 4)
+    has_recv = binding in (1, 2, 3, 4, 6)
     gen = {1: 1, 2: 2, 11: 1, 13: 1}.get(kind, 0)
     raw = mk_body("async", has_recv, gen)
     sync_raw = mk_body("sync", has_recv, 0)
@@ -151,6 +152,10 @@ def build(kind, binding):
     class Sub(K):
         pass
 
+    class Falsy(K):
+        def __len__(self):
+            return 0
+
     if binding == 0:
         return dec, None, None, pure, has_sync, wrapped, raw, sync_raw, log
     K.m = dec
@@ -167,15 +172,20 @@ def build(kind, binding):
         return Sub.m, Sub, None, pure, has_sync, wrapped, raw, sync_raw, log
     if binding == 5:
         return K(8).m, None, None, pure, has_sync, wrapped, raw, sync_raw, log
+    if binding == 6:
+        inst = Falsy(9)
+        return inst.m, inst, None, pure, has_sync, wrapped, raw, sync_raw, log
     raise AssertionError(binding)
 
 
 def applicable(kind, binding):
-    if kind in (8, 9) and binding not in (0, 1):
+    if kind in (8, 9) and binding not in (0, 1, 6):
+        return False
+    if kind == 9 and binding == 6:
         return False
     if kind == 9 and binding == 1:
         return False        # alru_cache drops the first parameter from its key: written for functions
-    if kind == 10 and binding != 1:
+    if kind == 10 and binding not in (1, 6):
         return False
     if kind == 9 and binding == 0:
         return True
@@ -334,7 +344,7 @@ def f_plain_helpers(which, x):
 
 def conds(tier):
     out = []
-    out.append(Cond("matrix", f_matrix, [I("kind", 0, len(KINDS) - 1), I("binding", 0, 5), I("sp", 0, 3),
+    out.append(Cond("matrix", f_matrix, [I("kind", 0, len(KINDS) - 1), I("binding", 0, 6), I("sp", 0, 3),
                                          I("x"), I("y"), I("z")], pin=1, builds=("C", "P"), budget=200,
                     family="decorator kind x binding x argument spelling, symbolic arguments", encodes=ENC))
     out.append(Cond("helpers", f_plain_helpers, [I("which", 0, 2), I("x")], pin=0, builds=("C", "P"), budget=60,
